@@ -69,22 +69,27 @@ def scen_map():
     out = []
     clock = [1000.0]
     pool.monotonic = lambda: clock[0]
-    a, b = FakeWorker(11), FakeWorker(12)
-    p = mkpool([a, b])
-    m = pool.MapResult(p._cache, 1, 2, None, None)
-    m._ack(0, 900.0, a.pid)
-    m._ack(1, 901.0, b.pid)
-    m._set(0, (True, ['r0']))              # worker A delivered its chunk ...
-    a.exitcode = pool.EX_RECYCLE           # ... and exits normally (maxtasksperchild reached)
-    p._join_exited_workers()
-    clock[0] += 60                         # well past the lost-worker timeout
-    p._join_exited_workers()
-    if m._worker_lost or (m.ready() and not m.successful()):
-        out.append('map of 2 chunks: worker 11 delivered chunk 0 and exited with the recycle status, chunk 1 still running on '
-                   'live worker 12; after the tick the map is %s' % (
-                       'failed: %r' % (m._value.exception,) if m.ready() else 'marked lost: %r' % (m._worker_lost,)))
-    if [pid for pid in m.worker_pids()] != [b.pid] and not out:
-        out.append('worker_pids() after chunk 0 was delivered: %r' % (m.worker_pids(),))
+    for chunksize, length in ((1, 2), (2, 4), (2, 3), (3, 5)):
+        clock[0] = 1000.0
+        a, b = FakeWorker(11), FakeWorker(12)
+        p = mkpool([a, b])
+        m = pool.MapResult(p._cache, chunksize, length, None, None)
+        m._ack(0, 900.0, a.pid)
+        m._ack(1, 901.0, b.pid)
+        m._set(0, (True, ['r%d' % k for k in range(chunksize)]))   # worker A delivered its chunk ...
+        a.exitcode = pool.EX_RECYCLE           # ... and exits normally (maxtasksperchild reached)
+        p._join_exited_workers()
+        clock[0] += 60                         # well past the lost-worker timeout
+        p._join_exited_workers()
+        what = 'map of %d items in chunks of %d' % (length, chunksize)
+        if m._worker_lost or (m.ready() and not m.successful()):
+            out.append('%s: worker 11 delivered chunk 0 and exited with the recycle status, chunk 1 still running on '
+                       'live worker 12; after the tick the map is %s' % (
+                           what, 'failed: %r' % (m._value.exception,) if m.ready() else 'marked lost: %r' % (m._worker_lost,)))
+        elif set(m.worker_pids()) != {b.pid}:
+            out.append('%s: worker_pids() after chunk 0 was delivered: %r' % (what, m.worker_pids()))
+        if out:
+            break
     return out
 
 
